@@ -77,6 +77,28 @@ theorem dispatch_total (cfg : Cfg) (sid : Nat) (parent : Option CbData) (ns : Na
     · exact ⟨_, rfl⟩
     · split <;> exact ⟨_, rfl⟩
 
+/-! ### draining the rest of an over-long line -/
+
+theorem drain_le (s r : Bytes) : (drain s r).1.length ≤ r.length := by
+  unfold drain
+  split
+  · simp only [List.length_drop]
+    have := (List.dropWhile_sublist (· != 10) (l := r)).length_le
+    omega
+  · exact Nat.le_refl _
+
+theorem drain_not_full (s r : Bytes) (h : ¬ (s.length = maxLineSize - 1 ∧ s.getLast? ≠ some 10)) :
+    drain s r = (r, false) := by
+  unfold drain; simp only [h, if_false]
+
+/-- a buffer that ends with the newline is a complete line -/
+theorem drain_nl (line r : Bytes) : drain (line ++ [10]) r = (r, false) :=
+  drain_not_full _ _ (by intro h; exact h.2 (by simp))
+
+/-- so is a buffer that is not full -/
+theorem drain_short (s r : Bytes) (h : s.length + 1 < maxLineSize) : drain s r = (r, false) :=
+  drain_not_full _ _ (by intro hh; omega)
+
 theorem parseInline_total (cfg : Cfg) (fuel : Nat) : ∀ (sid : Nat) (parent : Option CbData) (oc ns : Nat) (st : PState),
     st.input.length < fuel →
     ∃ st' r, parseInline cfg fuel sid parent oc ns st = .ok (st', r) ∧ st'.input.length ≤ st.input.length := by
@@ -91,10 +113,16 @@ theorem parseInline_total (cfg : Cfg) (fuel : Nat) : ∀ (sid : Nat) (parent : O
       | none => exact ⟨_, _, rfl, Nat.le_refl _⟩
       | some p => exact ⟨_, _, rfl, Nat.le_refl _⟩
     | some cr =>
-      obtain ⟨chunk, rest⟩ := cr
+      obtain ⟨chunk, rest0⟩ := cr
       have hsh := fgets_shorter _ _ _ hfg
-      have hfr : rest.length < fuel := by omega
+      have hdl := drain_le (chunk.takeWhile (· != 0)) rest0
       simp only []
+      generalize drain (chunk.takeWhile (· != 0)) rest0 = dr at hdl ⊢
+      obtain ⟨rest, toolong⟩ := dr
+      simp only [] at hdl ⊢
+      have hfr : rest.length < fuel := by omega
+      split
+      · exact ⟨_, _, rfl, by simp only []; omega⟩
       split
       · -- blank or comment line
         obtain ⟨st', r, h1, h2⟩ := ih sid parent oc ns { st with input := rest, lineno := st.lineno + 1 } hfr
